@@ -10,6 +10,7 @@ import TapkeeVerif.Proofs.LocallyLinearPsd
 import TapkeeVerif.Proofs.SpectralLocal
 import Mathlib.LinearAlgebra.Matrix.Notation
 import Mathlib.Tactic.NormNum
+import TapkeeVerif.Proofs.CertGenSound
 /-!
 C08 property theorems: the sparse matrices assembled by `routines/locally_linear.hpp`
 (`linear_weight_matrix`, `tangent_weight_matrix`, `hessian_weight_matrix`) in closed matrix form.
@@ -495,6 +496,33 @@ theorem skipped_eigenvector_is_constant {n : Nat} (hn : 0 < n) (M V : Matrix (Fi
   obtain ⟨κ, hκ, hV⟩ := col_of_simple_eigenvalue h (fun _ => (1 : K)) s hx hx0 ⟨0, hn⟩
     (fun j hj => hsimple j (fun hj0 => hj (Fin.ext hj0)))
   exact ⟨κ, hκ, fun i => by rw [hV i, mul_one]⟩
+
+/-! ### soundness of the inertia count every spectral verdict of the run-time certificate rests on
+(`Model/CertGen.lean: belowCount` = the exact rational LDLᵀ `Cert.inertiaPos` of `Model/Cert.lean` on `σ·B − A`;
+proofs: `Proofs/CertGenSound.lean` on top of `Proofs/Inertia.inertiaPos_sound`) -/
+
+/-- if the elimination of `S` closes with `p` positive pivots, `S` is positive definite on no family of more than `p`
+    independent directions -/
+theorem belowCount_sound {n : Nat} (S : Mat n n ℚ) (p : Nat) (h : TapkeeVerif.Cert.belowCount S = some p)
+    {m : Type} [Fintype m] (W : Matrix (Fin n) m ℚ)
+    (hpos : ∀ c : m → ℚ, c ≠ 0 → 0 < (W *ᵥ c) ⬝ᵥ (Mat.toM S *ᵥ (W *ᵥ c))) :
+    Fintype.card m ≤ p :=
+  TapkeeVerif.Cert.belowCount_sound S p h W hpos
+
+/-- `belowCount (σ·B − A) = some p` ⇒ the pencil `(A, B)` has at most `p` eigenvalues below `σ` -/
+theorem belowCount_bounds_eigenvalues {n : Nat} {A B V : Matrix (Fin n) (Fin n) ℚ} {lam : Fin n → ℚ}
+    (h : GenEigSystem A B V lam) (σ : ℚ) (p : Nat)
+    (hc : TapkeeVerif.Cert.belowCount (fun i j => σ * B i j - A i j) = some p) :
+    (Finset.univ.filter fun j => lam j < σ).card ≤ p :=
+  TapkeeVerif.Cert.belowCount_bounds_eigenvalues h σ p hc
+
+/-- the form the certificate uses: with `p ≤ m`, every eigenvalue of index `≥ m` is `≥ σ` — so `m` approximate
+    eigenvectors with Rayleigh quotients below `σ` account for ALL eigenvalues below `σ`: they are the `m` smallest -/
+theorem bottom_certified {n : Nat} {A B V : Matrix (Fin n) (Fin n) ℚ} {lam : Fin n → ℚ}
+    (h : GenEigSystem A B V lam) (σ : ℚ) (p m : Nat)
+    (hc : TapkeeVerif.Cert.belowCount (fun i j => σ * B i j - A i j) = some p) (hpm : p ≤ m) :
+    ∀ j : Fin n, m ≤ j.1 → σ ≤ lam j :=
+  TapkeeVerif.Cert.bottom_certified h σ p m hc hpm
 
 end Spectral
 
